@@ -1,8 +1,178 @@
+/-
+  Drv/Json.lean — ops of the `Json` layer.
+  JVal on the wire:  null | true/false | "s" | {"i": n} | {"f": "<repr>"} | [..] | {"o": [[key, v], ..]}
+  PVal on the wire:  null | true/false | "s" | {"i": n} | {"f": tok} | {"list": [..]} | {"dict": [[k, v], ..]}
+                     | {"f64": [tok..]} | {"nd": [..]} | {"dt": tok} | {"k": "na" | "npscalar" | "other"}
+  Val on the wire:   {"t": s} | true/false | {"f": tok} | {"i": n} | {"d": tok}
+-/
 import Drv.Base
-open Lean Pdt
-namespace Drv
+import Drv.Reader
+import Drv.Blocks
+import PdtModel.Model.Json
+open Lean Pdt Pdt.Reader Pdt.Represent Pdt.Blocks
+namespace Drv.JsonOps
 
-/-- op handler of the `Json` layer (stub until the layer is built) -/
-def handleJson (_op : String) (_j : Json) : Option (Except String Json) := none
+partial def jvalToJson : Pdt.Json.JVal → Json
+  | .null => Json.null
+  | .bool b => Json.bool b
+  | .int i => Json.mkObj [("i", Json.num (JsonNumber.fromInt i))]
+  | .num t => Json.mkObj [("f", str t)]
+  | .str s => str s
+  | .arr xs => arr (xs.map jvalToJson)
+  | .obj kvs => Json.mkObj [("o", arr (kvs.map fun kv => arr [str kv.1, jvalToJson kv.2]))]
+
+partial def jvalOfJson (j : Json) : Except String Pdt.Json.JVal :=
+  match j with
+  | .null => pure .null
+  | .bool b => pure (.bool b)
+  | .str s => pure (.str s.toList)
+  | .arr a => do pure (.arr (← a.toList.mapM jvalOfJson))
+  | .obj _ =>
+    match j.getObjVal? "i" with
+    | .ok v => do pure (.int (← v.getInt?))
+    | .error _ =>
+    match j.getObjVal? "f" with
+    | .ok v => do pure (.num (← v.getStr?).toList)
+    | .error _ =>
+    match j.getObjVal? "o" with
+    | .ok v => do
+      let kvs ← (← v.getArr?).toList.mapM fun p => do
+        match (← p.getArr?).toList with
+        | [k, x] => do pure ((← k.getStr?).toList, ← jvalOfJson x)
+        | _ => throw "bad member"
+      pure (.obj kvs)
+    | .error _ => throw "bad jval object"
+  | _ => throw "bad jval"
+
+partial def pvalOfJson (j : Json) : Except String Pdt.Json.PVal :=
+  match j with
+  | .null => pure .none
+  | .bool b => pure (.bool b)
+  | .str s => pure (.str s.toList)
+  | .obj _ =>
+    match j.getObjVal? "i" with
+    | .ok v => do pure (.int (← v.getInt?))
+    | .error _ =>
+    match j.getObjVal? "f" with
+    | .ok v => do pure (.float (← v.getStr?).toList)
+    | .error _ =>
+    match j.getObjVal? "dt" with
+    | .ok v => do pure (.datetime (← v.getStr?).toList)
+    | .error _ =>
+    match j.getObjVal? "list" with
+    | .ok v => do pure (.list (← (← v.getArr?).toList.mapM pvalOfJson))
+    | .error _ =>
+    match j.getObjVal? "nd" with
+    | .ok v => do pure (.ndarray (← (← v.getArr?).toList.mapM pvalOfJson))
+    | .error _ =>
+    match j.getObjVal? "f64" with
+    | .ok v => do pure (.f64arr (← (← v.getArr?).toList.mapM fun x => do pure (← x.getStr?).toList))
+    | .error _ =>
+    match j.getObjVal? "dict" with
+    | .ok v => do
+      let kvs ← (← v.getArr?).toList.mapM fun p => do
+        match (← p.getArr?).toList with
+        | [k, x] => do pure ((← k.getStr?).toList, ← pvalOfJson x)
+        | _ => throw "bad member"
+      pure (.dict kvs)
+    | .error _ =>
+    match j.getObjVal? "k" with
+    | .ok (.str "na") => pure .na
+    | .ok (.str "npscalar") => pure .npscalar
+    | .ok (.str "other") => pure .other
+    | _ => throw "bad pval object"
+  | _ => throw "bad pval"
+
+def jsValOfJson (j : Json) : Except String Val :=
+  match j with
+  | .bool b => pure (.bool b)
+  | .obj _ =>
+    match j.getObjVal? "t" with
+    | .ok v => do pure (.text (← v.getStr?).toList)
+    | .error _ =>
+    match j.getObjVal? "f" with
+    | .ok v => do pure (.num (← v.getStr?).toList)
+    | .error _ =>
+    match j.getObjVal? "i" with
+    | .ok v => do pure (.int (← v.getInt?))
+    | .error _ =>
+    match j.getObjVal? "d" with
+    | .ok v => do pure (.dt (← v.getStr?).toList)
+    | .error _ => throw "bad val object"
+  | _ => throw "bad val"
+
+def jsTableValOfJson (j : Json) : Except String TableVal := do
+  let name ← getStr j "name"
+  let dests ← (← getArr j "destinations").mapM fun d => do pure (← d.getStr?).toList
+  let transposed ← getBool j "transposed"
+  let cols ← (← getArr j "columns").mapM fun c => do
+    let vals ← (← getArr c "values").mapM jsValOfJson
+    pure (⟨← getStr c "name", ← getStr c "unit", vals⟩ : Column)
+  pure ⟨name, dests, transposed, cols⟩
+
+/-- `repr(float(i))` from the oracle table on the line; a lookup miss is loud -/
+def fiOfJson (j : Json) : Except String (Int → Str) := do
+  let tbl ← objPairs (j.getObjValD "ints")
+  pure fun i =>
+    match tbl.lookup (toString i) with
+    | some (.str t) => t.toList
+    | _ => "ORACLE-MISS".toList
+
+def excOrJVal (r : Except PyExc Pdt.Json.JVal) : Json :=
+  match r with
+  | .ok v => Json.mkObj [("ok", jvalToJson v)]
+  | .error e => exc (excName e)
+
+def blockValToJsonJ : BlockVal → Json
+  | .json p => Json.mkObj [("jsondata", excOrJVal (Pdt.Json.ofPrecursor p))]
+  | v => blockValToJson v
+
+end Drv.JsonOps
+
+namespace Drv
+open Drv.JsonOps
+
+def handleJson (op : String) (j : Json) : Option (Except String Json) :=
+  match op with
+  | "to_json" => some do
+    let v ← pvalOfJson (← j.getObjVal? "v")
+    pure (excOrJVal (Pdt.Json.toJsonSerializable v))
+  | "json_of_precursor" => some do
+    let cells ← rowsOfJson (← j.getObjVal? "cells")
+    let ext ← extOfJson (← j.getObjVal? "ext")
+    let f ← fixerOfJson (← j.getObjVal? "fixer")
+    match makePrecursor ext cells f with
+    | .ok (p, _) => pure (excOrJVal (Pdt.Json.ofPrecursor p))
+    | .error e => pure (exc (excName e))
+  | "json_of_table" => some do
+    let t ← jsTableValOfJson (← j.getObjVal? "table")
+    pure (excOrJVal (Pdt.Json.ofTable t))
+  | "json_to_grid" => some do
+    let v ← jvalOfJson (← j.getObjVal? "j")
+    let fi ← fiOfJson j
+    match Pdt.Json.toGrid fi v with
+    | .ok g => pure (Json.mkObj [("ok", arr (g.map rowToJson))])
+    | .error e => pure (exc (excName e))
+  | "json_to_table" => some do
+    let v ← jvalOfJson (← j.getObjVal? "j")
+    let fi ← fiOfJson j
+    let ext ← extOfJson (← j.getObjVal? "ext")
+    match Pdt.Json.toTable ext fi v with
+    | .ok p => pure (Json.mkObj [("ok", precursorJson p)])
+    | .error e => pure (exc (excName e))
+  | "dumps_ok" => some do
+    let v ← jvalOfJson (← j.getObjVal? "j")
+    pure (Json.bool (Pdt.Json.dumpsStrictOk v))
+  | "parse_blocks_json" => some do
+    let rows ← rowsOfJson (← j.getObjVal? "rows")
+    let cfg ← configOfJson j
+    let f ← fixerOfJson (← j.getObjVal? "fixer")
+    let r := parseBlocks cfg rows f
+    pure (Json.mkObj [
+      ("blocks", arr (r.blocks.map fun d =>
+        Json.mkObj [("ty", Json.str (btString d.ty)), ("first", nat d.first), ("val", blockValToJsonJ d.val)])),
+      ("issues", arr (r.issues.map nat)),
+      ("ending", endingToJson r.ending)])
+  | _ => none
 
 end Drv
